@@ -245,11 +245,12 @@ static const char *OPN[] = { "add", "del", "write", "step", "time", "kill", "act
 enum { F_TOP, F_CB, F_NIF };   /* F_NIF: inside the callback of an event another thread just activated (wake-up notification in flight) */
 struct sop { int kind, a, b; };
 struct sslot {
-	int used, kind, pipe, sig_i, persist, et, has_tv, prio, nodrain, del_after, readd;
+	int used, kind, pipe, sig_i, persist, et, has_tv, prio, nodrain, del_after, readd, wr_on_rd;
 	long tv_us;
 };
 struct scen {
 	int backend, sigfd, threads, changelist, npri, npipe, pipe_is_sock[MAXPIPE];
+	int dual;          /* pipe whose read end carries a reader (slot 0) and a writer (slot 1) at the fork, -1 none */
 	int fullpipe;      /* index of a pipe kept full (write events on it wait for space), -1 none */
 	struct sslot sl[MAXSLOT];
 	struct sop prefix[MAXOPS]; int nprefix;
@@ -775,7 +776,7 @@ static void run_scenario(int r_role)
 		if (!s->used) continue;
 		switch (s->kind) {
 		case K_READ: fl = EV_READ | (s->et ? EV_ET : 0); fd = pp[s->pipe].rd; break;
-		case K_WRITE: fl = EV_WRITE; fd = pp[s->pipe].wr; break;
+		case K_WRITE: fl = EV_WRITE; fd = s->wr_on_rd ? pp[s->pipe].rd : pp[s->pipe].wr; break;
 		case K_TIMER: fl = 0; fd = -1; break;
 		case K_SIGNAL: fl = EV_SIGNAL; fd = SIGS[s->sig_i]; break;
 		}
@@ -788,6 +789,7 @@ static void run_scenario(int r_role)
 	for (i = 0; i < SC->nprefix; i++) exec_op(&SC->prefix[i], i);
 	/* the fork step */
 	for (i = 0; i < SC->npre; i++) exec_op(&SC->pre[i], 100 + i);
+	if (SC->dual >= 0 && role == ROLE_FORKED) c_stat("dual_interest_fd_at_fork");
 	if (SC->fork_mode == F_TOP) { if (role == ROLE_FORKED) c_stat("fork_at_top_level"); fork_point(); }
 	else if (SC->fork_mode == F_CB) armed = 1;
 	else {
@@ -894,6 +896,18 @@ static void gen_scenario(struct scen *sc, vh_rng *r, long idx, int threads)
 		if (!s->persist && vh_chance(r, 1, 2)) s->readd = (int)vh_range(r, 1, 3);
 		ids[nids++] = i;
 	}
+	/* two events with different interests on ONE fd at the fork (a bufferevent with pending output looks like
+	 * this): slot 0 reads the socket, slot 1 waits for writability of the same socket and is added in the fork
+	 * step, so both registrations exist, undispatched, when the child re-creates its backend (seed C11-3) */
+	sc->dual = -1;
+	if (vh_chance(r, 1, 3)) {
+		for (i = 0; i < sc->npipe; i++) if (sc->pipe_is_sock[i] && i != sc->fullpipe) { sc->dual = i; break; }
+		if (sc->dual >= 0) {
+			sc->sl[0].pipe = sc->dual; sc->sl[0].persist = 1; sc->sl[0].nodrain = 0; sc->sl[0].et = 0; sc->sl[0].del_after = 0;
+			sc->sl[1].pipe = sc->dual; sc->sl[1].wr_on_rd = 1; sc->sl[1].del_after = 0;
+			sc->prefix[sc->nprefix].kind = P_ADD; sc->prefix[sc->nprefix++].a = 0;
+		}
+	}
 	/* prefix: add most events, exercise a little */
 	for (i = 0; i < nslot && sc->nprefix < MAXOPS - 12; i++)
 		if (vh_chance(r, 4, 5)) { sc->prefix[sc->nprefix].kind = P_ADD; sc->prefix[sc->nprefix++].a = i; }
@@ -959,6 +973,10 @@ static void gen_scenario(struct scen *sc, vh_rng *r, long idx, int threads)
 			}
 		}
 	}
+	if (sc->dual >= 0) {
+		if (sc->npre < 7) { sc->pre[sc->npre].kind = P_ADD; sc->pre[sc->npre].b = 0; sc->pre[sc->npre++].a = vh_chance(r, 1, 2) ? 1 : 0; }
+		if (sc->npre < 8) { sc->pre[sc->npre].kind = P_ADD; sc->pre[sc->npre].b = 0; sc->pre[sc->npre].a = sc->pre[sc->npre - 1].a ? 0 : 1; sc->npre++; }
+	}
 	/* stimulus */
 	sc->xsig = -1;
 	if (sc->fork_mode == F_TOP && nsig > 0 && vh_chance(r, 2, 3)) {
@@ -968,6 +986,7 @@ static void gen_scenario(struct scen *sc, vh_rng *r, long idx, int threads)
 		sc->stim[sc->nstim].kind = P_XKILL; sc->stim[sc->nstim++].a = k;
 		sc->stim[sc->nstim++].kind = P_STEP;
 	}
+	if (sc->dual >= 0) { sc->stim[sc->nstim].kind = P_WRITE; sc->stim[sc->nstim].a = sc->dual; sc->stim[sc->nstim++].b = (int)vh_range(r, 1, 700); sc->stim[sc->nstim++].kind = P_STEP; }
 	{
 		int n = (int)vh_range(r, 4, vh_opt.thorough ? 30 : 16);
 		for (i = 0; i < n && sc->nstim < MAXOPS - 2; i++) {
